@@ -13,8 +13,11 @@ import (
 // mutClasses are applied round-robin to every fixture (class k%len for the k-th mutation).
 var mutClasses = []string{
 	"trunc", "bitflip1", "bitflipN", "byteset", "linedup", "linedel", "lineswap", "chunkdup", "chunkdel",
-	"nul", "badutf8", "longline", "hugenum", "typeconf", "splice", "nestins", "trunc", "bitflipN", "typeconf", "numtweak",
+	"nul", "badutf8", "longline", "hugenum", "typeconf", "splice", "nestins", "trunc", "bitflipN", "typeconf", "numtweak", "delimswap",
 }
+
+// delimiter pairs for the "delimswap" class: closers before openers, unbalanced and nested groups
+var delimPairs = [][2]byte{{'[', ']'}, {'(', ')'}, {'{', '}'}, {'<', '>'}, {'"', '"'}, {'\'', '\''}}
 
 var interesting = []byte{0x00, 0xff, 0x7f, 0x80, '\n', '\r', '"', '\'', '{', '}', '[', ']', '<', '>', ':', ',', '=', '#', '\\', '/', '-', ' ', '\t', '0', '9', '&', '%', '@', '!', '~', '*', '|'}
 
@@ -263,6 +266,43 @@ func mutate(class string, seed int64, orig []byte, other func(r *rand.Rand) []by
 		}
 		v := vs[r.Intn(len(vs))]
 		return append(append(clone(orig[:v[0]]), ins...), orig[v[1]:]...)
+	case "delimswap":
+		// a hand-written scanner that looks for "the first opener" and "the first closer" independently is the classic
+		// way to loop forever or to slice backwards: put closers in front of openers, unbalance and nest groups
+		out := clone(orig)
+		p := delimPairs[r.Intn(len(delimPairs))]
+		var opens, closes []int
+		for i, c := range out {
+			if c == p[0] {
+				opens = append(opens, i)
+			} else if c == p[1] {
+				closes = append(closes, i)
+			}
+		}
+		switch k := r.Intn(5); {
+		case k == 0 && len(opens) > 0 && len(closes) > 0: // swap an opener with a later closer: "]…["
+			i, j := opens[r.Intn(len(opens))], closes[r.Intn(len(closes))]
+			out[i], out[j] = p[1], p[0]
+			return out
+		case k == 1 && len(opens) > 0: // a closer right in front of an opener: "]["
+			return insertAt(out, opens[r.Intn(len(opens))], []byte{p[1]})
+		case k == 2 && len(opens) > 0: // nested opener
+			return insertAt(out, opens[r.Intn(len(opens))]+1, []byte{p[0]})
+		case k == 3 && len(closes) > 0: // drop a closer
+			j := closes[r.Intn(len(closes))]
+			return append(out[:j:j], out[j+1:]...)
+		}
+		// no such delimiter in the fixture: splice a reversed group into a value or a line
+		grp := []byte{p[1], p[0], 'x', p[1]}
+		if vs := valueSpans(out); len(vs) > 0 {
+			v := vs[r.Intn(len(vs))]
+			return insertAt(out, v[0]+r.Intn(v[1]-v[0]+1), grp)
+		}
+		at := 0
+		if n > 0 {
+			at = r.Intn(n + 1)
+		}
+		return insertAt(out, at, grp)
 	case "zipwrap":
 		return zipWrap(r, orig, other)
 	case "zipmem":
@@ -357,6 +397,16 @@ var genericDocs = map[string]func() []byte{
 	"doc:bolt-magic":   lit(strings.Repeat("\x00", 16) + "\xed\xda\x0c\xed\x02\x00\x00\x00" + strings.Repeat("\xff", 4072)),
 	"doc:gzip-magic":   lit("\x1f\x8b\x08" + strings.Repeat("\x00", 7)),
 	"doc:bplist":       lit("bplist00" + strings.Repeat("\xff", 40)),
+
+	// closers before openers (adjacent: a scanner that splices "between the first opener and the first closer" makes
+	// no progress; with a gap it may grow its buffer without bound)
+	"delim:brackets-rev":  lit("requests][security]==2.31.0\n"),
+	"delim:brackets-gap":  lit("a]b[c]==1\n"),
+	"delim:brackets-nest": lit("a[b[c]d]e==1\n[[x]]\n][\n"),
+	"delim:parens-rev":    lit("name)(1.0)\n    name )( 1.0\n"),
+	"delim:braces-rev":    lit("}{\"a\":1}\n"),
+	"delim:angles-rev":    lit("><a></a>\n"),
+	"delim:quotes-odd":    lit("\"a\"\"b\": \"c\n'x''y'\n"),
 
 	"nest:json-arr":     rep("[", deep),
 	"nest:json-obj":     rep("{\"a\":", deep),
